@@ -19,6 +19,10 @@ def obligations(tier):
         obs.append(Ob(id=f'inversion/n{n}', harness='C12/solvers.c', tus=T, defs={'HP_WHICH': 0, 'HP_N': n}, engine='real', unwind=10, timeout=to, clause='M * M^-1 = I',
                       stubs=R, real={'nomissing': True, 'divnz_if_excluded': True}, kf='C12_no_pivoting'))
     for n in (1, 2):
+      for k in (3, 5, 7):
+        obs.append(Ob(id=f'inversion_small_unit/n{n}/1e-{k}', harness='C12/solvers.c', tus=T, defs={'HP_WHICH': 0, 'HP_N': n, 'HP_SMALL': k}, engine='real', unwind=10, timeout=to, clause='M * M^-1 = I (well conditioned matrix in a small unit)',
+                      stubs=R, real={'nomissing': True, 'divnz_if_excluded': True}, kf='C12_no_pivoting'))
+    for n in (1, 2):
         obs.append(Ob(id=f'inversion_reused_output/n{n}', harness='C12/solvers.c', tus=T, defs={'HP_WHICH': 0, 'HP_N': n, 'HP_PREFILL': 1}, engine='real', unwind=10, timeout=to, clause='M * M^-1 = I', stubs=R, real={'nomissing': True, 'divnz_if_excluded': True}))
         obs.append(Ob(id=f'solvelse/n{n}', harness='C12/solvers.c', tus=T, defs={'HP_WHICH': 1, 'HP_N': n}, engine='real', unwind=10, timeout=to, clause='A x = b', stubs=R, real={'nomissing': True}))
     for n in ((1, 2, 3) if not th else (1, 2, 3, 4)):
@@ -28,7 +32,8 @@ def obligations(tier):
             obs.append(Ob(id=f'ols/n{n}p{p}/{"reused_output" if pf else "fresh_output"}', harness='C12/solvers.c', tus=T, defs={'HP_WHICH': 3, 'HP_N': n, 'HP_P': p, 'HP_PREFILL': pf}, engine='real', unwind=10, timeout=to, clause='least squares: normal equations',
                           stubs=R, real={'nomissing': True}))
     for n in ((1, 2) if not th else (1, 2, 3)):
-        obs.append(Ob(id=f'pinv_composition/n{n}', harness='C12/pinv.c', tus=T, defs={'HP_WHICH': 0, 'HP_N': n}, engine='real', unwind=10, timeout=to, clause='SVD-based pseudo-inverse = inverse whenever SVD() returns a valid decomposition',
+      for pf in (0, 1):
+        obs.append(Ob(id=f'pinv_composition/n{n}/{"reused_output" if pf else "fresh_output"}', harness='C12/pinv.c', tus=T, defs={'HP_WHICH': 0, 'HP_N': n, 'HP_PREFILL': pf}, engine='real', unwind=10, timeout=to, clause='SVD-based pseudo-inverse = inverse whenever SVD() returns a valid decomposition',
                       remove=('SVD',), stubs=R, real={'nomissing': True}))
     for (r, c) in ([(2, 1), (3, 1), (3, 2)] if not th else [(2, 1), (3, 1), (3, 2), (4, 2), (2, 2)]):
         for pf in (0, 1):
